@@ -3,7 +3,7 @@ from core import Property
 VMAX = 2 ** 62 - 1
 WINS = [1, 2, 3, 5, 7, 16, 61, 100, 1000, 4096, 10000, 65536, 1 << 20]
 CODES = [0, 1, 63, 64, 256, 258, 268, 16383, 16384, 2 ** 30 - 1, 2 ** 30, 2 ** 32 + 5, VMAX - 1, VMAX]
-TIMING_QW = ('stop', 'close', 'areset', 'lclose')
+TIMING_QW = ('stop', 'close', 'timeout', 'areset', 'lclose', 'cfin')
 
 
 def kv(case):
@@ -70,12 +70,12 @@ class P(Property):
             '0..20 earlier streams so that ids vary.  qw: 1..6 DATA frames with payloads 0..64 KiB quick / 0..256 KiB thorough in 1..4 '
             'chunks, peer stream window and connection window from 1 byte to 1 MiB (partial writes forced whenever the data exceeds the '
             'window), peer read sizes 1 byte..64 KiB, a second send_data attempted right after the first and/or at the first Pending of '
-            'poll_ready, every kind of WriteBuf (DATA, HEADERS, stream type + DATA, stream type alone), raw bytes through poll_send afterwards, send_id queried before/after send_data, while a write is pending, after completion, after finish; faults at '
-            'seeded offsets: peer STOP_SENDING(code), peer close(code), write after finish, local reset(code up to 2^64-1), local close(code). '
+            'poll_ready, every kind of WriteBuf (DATA, HEADERS, stream type + DATA, stream type alone), raw bytes (0..64 KiB quick / 256 KiB thorough, 1 or 3 chunks) through poll_send afterwards - also with the peer stopping / closing / falling silent while poll_send is blocked -, poll_send attempted while a framed buffer is half written (must be refused), the pending write abandoned and the stream finished (cfin), streams opened and connections closed through Connection itself, the opener() handle or a clone of it, send_id queried before/after send_data, while a write is pending, after completion, after finish; faults at '
+            'seeded offsets: peer STOP_SENDING(code), peer close(code), peer silent until the idle timeout, write after finish, local reset(code up to 2^64-1), local close(code). '
             'qr: peer writes 1..5 chunks; recv_id queried on a fresh stream, WHILE a read is pending, after that read was cancelled, after a '
             'deferred stop, after data, at the end; stop_sending issued while idle / while the read future owns the stream (once or twice); '
             'peer reset(code), close(code), idle timeout, local close.  qa: accept/open on a connection lost by peer close(code), local '
-            'close, idle timeout.  qd: datagrams sent / received through the adapter\'s handlers (quarter ids over all varint forms, payloads '
+            'close, idle timeout, for poll_accept_recv/bidi and for poll_open_bidi/send of BOTH OpenStreams impls (Connection, opener() handle, its clone).  qd: datagrams sent / received through the adapter\'s handlers (quarter ids over all varint forms, payloads '
             '0..1100 bytes), too large, datagrams disabled by the peer, and after peer close(code) / local close / idle timeout.  Codes from {0,1,63,64,256,...,2^62-1} and seeded 62-bit values.  Compared: bytes received by the peer '
             '(length + FNV-1a) when no fault, prefix validity otherwise; refusal and its class; the set of ids reported and the id the '
             'peer sees; error class and code; end-of-stream condition and code seen by the peer.  Not compared (canonicalised): how many '
@@ -92,14 +92,31 @@ class P(Property):
     ]
 
     # ------------------------------------------------------------------ generators
-    def gen_qw(self, rng, big, fault_kind=None):
+    def gen_qw(self, rng, big, fault_kind=None, want=None):
+        """One qw case.  fault_kind: none|stop|close|timeout|afin|areset|lclose|cfin (None = seeded mix).
+        want: None | 'ps' (raw bytes after the frames) | 'psfault' (the peer fault hits while poll_send is blocked)
+        | 'dblp' | 'psp' (second send_data / poll_send at the first Pending of a buffer).
+        A case that cannot realise what was asked for (e.g. too little data to be blocked at the fault) is
+        generated again, never silently turned into something else."""
+        for _ in range(200):
+            c = self.gen_qw_once(rng, big, fault_kind, want)
+            if c is not None:
+                return c
+        raise RuntimeError('gen_qw: cannot realise %s/%s' % (fault_kind, want))
+
+    def gen_qw_once(self, rng, big, fault_kind, want):
         role = rng.choice('cs')
         kind = rng.choice(['bi', 'uni', 'bip'])
+        via = rng.choice(['conn', 'opener', 'opener', 'clone'])
         skip = rng.choice([0, 0, 1, 2, 5, rng.randint(0, 20)])
         win = rng.choice(WINS)
         cwin = rng.choice(WINS + [1 << 22, 1 << 22])
         swin = 1 << 22
-        fk = fault_kind or rng.choice(['none'] * 5 + ['stop', 'close', 'afin', 'areset', 'lclose'])
+        fk = fault_kind or rng.choice(['none'] * 6 + ['stop', 'close', 'afin', 'areset', 'lclose', 'cfin'])
+        if want is None and fk in ('none', 'stop', 'close', 'lclose'):
+            want = rng.choice([None, None, 'ps'] + (['dblp', 'psp'] if fk == 'none' else ['psfault'] if fk != 'lclose' else []))
+        if fk == 'timeout':
+            win = min(win, 10000)    # the blocked writer must really be blocked with little data
         if fk == 'stop':
             # quinn-proto 0.11.17: a writer blocked on the stream window AND on a connection-level limit at the same
             # moment is never told about STOP_SENDING (Streams::poll drops it from connection_blocked without a
@@ -132,41 +149,67 @@ class P(Property):
             else:
                 specs.append('.'.join(map(str, b)))
         bufs = specs
-        total = sum(buf_wire(b) for b in bufs)
+        wires = [buf_wire(b) for b in bufs]
+        total = sum(wires)
+        # buffers that cannot be accepted in one go: poll_ready is certain to return Pending on them
+        blocking = [j for j, w in enumerate(wires) if w > eff]
+        ps = '-'
+        if want in ('ps', 'psfault') or (want is None and fk == 'none' and rng.random() < 0.2):
+            cap = 256 * 1024 if big else 64 * 1024
+            ps = rng.choice([0, 1, 100, rng.randint(0, max(1, min(budget, cap))), rng.randint(0, max(1, min(budget, cap)))])
+            if want == 'psfault':
+                ps = max(ps, eff + 17 + rng.randint(0, 3 * eff))
+                if ps > cap:
+                    return None
+        psn = 0 if ps == '-' else int(ps)
         # a small send window makes every step wait for an ACK (25 ms): only with little data
         sw = rng.choice([7, 100, 5000, 0, 0, 0])
-        if sw and total <= 30 * sw and not (fk == 'stop' and sw < 2 * win + 64):
+        if sw and total + psn <= 30 * sw and not (fk == 'stop' and sw < 2 * win + 64) and fk != 'timeout':
             swin = sw
         rd = rng.choice([0, 0, 0, 1, 7, 100, 1000, 65536])
-        if rd and total // rd > 20000:
+        if rd and (total + psn) // rd > 20000:
             rd = 0
         code = rng.choice(CODES + [rng.getrandbits(62)])
         fault = 'none'
-        if fk in ('stop', 'close'):
-            # the peer reads exactly n bytes and then stops/closes; A must still be blocked at that point
-            room = total - eff - 16
-            if room >= 0:
-                fault = '%s:%d@%d' % (fk, code, rng.randint(0, room))
+        if fk in ('stop', 'close', 'timeout'):
+            # the peer reads exactly n bytes and then stops / closes / falls silent; A must be blocked at that point:
+            # either inside the framed buffers, or (psfault) inside the raw bytes sent with poll_send afterwards
+            if want == 'psfault':
+                lo, hi = total, total + psn - eff - 16
+            else:
+                lo, hi = 0, total - eff - 16
+            if hi < lo:
+                return None
+            at = rng.randint(lo, hi)
+            fault = ('timeout@%d' % at) if fk == 'timeout' else '%s:%d@%d' % (fk, code, at)
         elif fk == 'afin':
             fault = 'afin'
         elif fk == 'areset':
             fault = 'areset:%d@%d' % (rng.choice([code, 2 ** 62, 2 ** 64 - 1, code]), rng.randint(0, nb))
         elif fk == 'lclose':
             fault = 'lclose:%d@%d' % (code, rng.randint(0, nb))
+        elif fk == 'cfin':
+            if not blocking:
+                return None
+            fault = 'cfin@%d' % rng.choice(blocking)
         dbl = rng.choice(['-', '-', str(rng.randrange(nb))])
-        dblp = rng.choice(['-', str(rng.randrange(nb)), str(rng.randrange(nb))])
-        if fault.startswith(('stop', 'close')):
+        dblp = psp = '-'
+        if fk == 'none':
+            if want == 'dblp' or (want is None and blocking and rng.random() < 0.3):
+                if not blocking:
+                    return None
+                dblp = str(rng.choice(blocking))
+            if want == 'psp' or (want is None and blocking and rng.random() < 0.3):
+                if not blocking:
+                    return None
+                psp = str(rng.choice(blocking))
+        if fk in ('stop', 'close', 'timeout', 'cfin'):
             # which buffer is in flight when the fault hits depends on timing
-            dbl = dblp = '-'
+            dbl = '-'
         ids = rng.choice([31, 31, rng.randint(0, 31) | 8])   # bit 3 (after the writes) is reached in every run
-        ps = '-'
-        if fault == 'none' and rng.random() < 0.3:
-            ps = str(rng.choice([0, 1, 100, rng.randint(0, max(1, min(budget, 20000)))]))
-            if total + int(ps) > 30 * swin:
-                swin = 1 << 22
-        return ('qw role=%s kind=%s skip=%d win=%d cwin=%d swin=%d bufs=%s seed=%d ids=%d dbl=%s dblp=%s rd=%d ps=%s fault=%s'
-                % (role, kind, skip, win, cwin, swin, ','.join(bufs), rng.randint(0, 255), ids,
-                   dbl, dblp, rd, ps, fault))
+        return ('qw role=%s kind=%s via=%s skip=%d win=%d cwin=%d swin=%d bufs=%s seed=%d ids=%d dbl=%s dblp=%s psp=%s rd=%d ps=%s fault=%s'
+                % (role, kind, via, skip, win, cwin, swin, ','.join(bufs), rng.randint(0, 255), ids,
+                   dbl, dblp, psp, rd, ps, fault))
 
     def gen_qr(self, rng, big, fault_kind=None):
         role = rng.choice('cs')
@@ -199,38 +242,48 @@ class P(Property):
         else:
             fault = '%s:%d@%d' % (fk, code, rng.randint(0, total))
         ids = rng.choice([63, 63, rng.randint(0, 63) | 32])   # bit 5 (at the end) is reached in every run
-        return ('qr role=%s kind=%s skip=%d win=%d cwin=%d chunks=%s seed=%d ids=%d stop=%s fault=%s'
-                % (role, kind, skip, win, cwin, ','.join(map(str, chunks)), rng.randint(0, 255), ids, stop, fault))
+        via = rng.choice(['conn', 'opener', 'clone'])
+        return ('qr role=%s kind=%s via=%s skip=%d win=%d cwin=%d chunks=%s seed=%d ids=%d stop=%s fault=%s'
+                % (role, kind, via, skip, win, cwin, ','.join(map(str, chunks)), rng.randint(0, 255), ids, stop, fault))
 
     def cases(self, tier, rng):
         out = []
         big = tier != 'quick'
-        nqw, nqr, nto = (95, 70, 3) if tier == 'quick' else (2700, 2100, 60)
-        # every fault kind at least a few times, then the seeded mix
-        for fk in ('none', 'stop', 'close', 'afin', 'areset', 'lclose'):
-            for _ in range(3 if tier == 'quick' else 40):
+        q = tier == 'quick'
+        nqw, nqr, nto = (70, 58, 3) if q else (2600, 2000, 60)
+        # guaranteed minimum of every fault family and of every special observation, then the seeded mix
+        for fk, n in (('none', 3), ('stop', 4), ('close', 4), ('timeout', 2), ('afin', 3), ('areset', 3), ('lclose', 3), ('cfin', 3)):
+            for _ in range(n if q else 12 * n):
                 out.append(self.gen_qw(rng, big, fk))
+        for fk, want, n in (('none', 'ps', 6), ('none', 'dblp', 6), ('none', 'psp', 6), ('stop', 'psfault', 3), ('close', 'psfault', 3),
+                            ('timeout', 'psfault', 2), ('lclose', 'ps', 2)):
+            for _ in range(n if q else 12 * n):
+                out.append(self.gen_qw(rng, big, fk, want))
         for fk in ('fin', 'reset', 'close', 'lclose'):
-            for _ in range(3 if tier == 'quick' else 40):
+            for _ in range(3 if q else 40):
                 out.append(self.gen_qr(rng, big, fk))
-        for _ in range(nqw - 18):
+        for _ in range(nqw):
             out.append(self.gen_qw(rng, big))
-        for _ in range(nqr - 12):
+        for _ in range(nqr):
             out.append(self.gen_qr(rng, big))
         for _ in range(nto):
             out.append(self.gen_qr(rng, False, 'timeout'))
-        ops = ['accept_recv', 'accept_bidi', 'open_bidi', 'open_send']
-        for op in ops:
+        # open / accept on a lost connection, through BOTH `impl OpenStreams` (Connection; opener() handle and its clone)
+        for op in ('accept_recv', 'accept_bidi'):
             for role in 'cs':
-                for c in ([rng.choice(CODES)] if tier == 'quick' else CODES):
-                    out.append('qa role=%s op=%s fault=close:%d' % (role, op, c))
-                    if role == 'c' or tier != 'quick':
-                        out.append('qa role=%s op=%s fault=lclose:%d' % (role, op, c))
-            if tier != 'quick':
-                out.append('qa role=c op=%s fault=timeout' % op)
-                out.append('qa role=s op=%s fault=timeout' % op)
-        if tier == 'quick':
-            out.append('qa role=c op=accept_bidi fault=timeout')
+                for c in ([rng.choice(CODES)] if q else CODES):
+                    out.append('qa role=%s op=%s via=conn fault=close:%d' % (role, op, c))
+                    out.append('qa role=%s op=%s via=%s fault=lclose:%d' % (role, op, rng.choice(['conn', 'opener', 'clone']), c))
+            if not q:
+                out.append('qa role=c op=%s via=conn fault=timeout' % op)
+        for op in ('open_bidi', 'open_send'):
+            for via in ('conn', 'opener', 'clone'):
+                for role in ('cs' if not q else rng.choice(['c', 's'])):
+                    for c in ([rng.choice(CODES)] if q else CODES):
+                        out.append('qa role=%s op=%s via=%s fault=close:%d' % (role, op, via, c))
+                        out.append('qa role=%s op=%s via=%s fault=lclose:%d' % (role, op, via, c))
+                if not q or op == 'open_bidi':
+                    out.append('qa role=%s op=%s via=%s fault=timeout' % (rng.choice('cs'), op, via))
         # datagrams through the adapter's handlers
         for i in range(14 if tier == 'quick' else 300):
             role = rng.choice('cs')
@@ -256,8 +309,8 @@ class P(Property):
         t = dict(toks)
         if 'ids' in t and t['ids'] not in ('-', '*'):
             t['ids'] = ','.join(sorted(set(t['ids'].split(',')), key=lambda x: (len(x), x)))
-        if t.get('dblp') == 'na':
-            t['dblp'] = 'refused:conn-internal'
+        # `na` (Quinn never answered Pending where the generator made it certain) is NOT canonicalised away:
+        # it shows up as a mismatch
         timing = False
         if fam == 'qw':
             fn = fault_name(d, 'none')
@@ -311,10 +364,12 @@ class P(Property):
         if fam == 'qw':
             bufs = d.get('bufs', '0').split(',')
             fn = fault_name(d, 'none')
-            if len(bufs) > 1 and fn == 'none':
-                emit(dict(d, bufs=','.join(bufs[:-1]), dbl='-', dblp='-'))
-                emit(dict(d, bufs=','.join(bufs[1:]), dbl='-', dblp='-'))
-            if fn == 'none':
+            # dblp / psp need a buffer larger than the window (Pending certain): do not shrink buffers under them
+            pinned = d.get('dblp', '-') != '-' or d.get('psp', '-') != '-'
+            if len(bufs) > 1 and fn == 'none' and not pinned:
+                emit(dict(d, bufs=','.join(bufs[:-1]), dbl='-'))
+                emit(dict(d, bufs=','.join(bufs[1:]), dbl='-'))
+            if fn == 'none' and not pinned:
                 for i, b in enumerate(bufs):
                     n = buf_total(b)
                     if not b[0].isdigit():
@@ -325,7 +380,7 @@ class P(Property):
                         emit(dict(d, bufs=','.join(bufs[:i] + [str(n // 2)] + bufs[i + 1:])))
                 if d.get('ps', '-') != '-':
                     emit(dict(d, ps='-'))
-            for k in ('dbl', 'dblp'):
+            for k in ('dbl', 'dblp', 'psp'):
                 if d.get(k, '-') != '-':
                     emit(dict(d, **{k: '-'}))
             if d.get('rd', '0') != '0':
